@@ -51,6 +51,10 @@ MUTANTS = {
           ("        return prob\n", "        _m[(id(G), root, repr(p))] = (prob, G)\n        return prob\n")], None),
         ("caller_graph_edges_readded", AE, "        prob = 0.0\n\n        # `components` is a list",
          "        prob = 0.0\n        _es = list(G.edges())\n        G.remove_edges_from(_es)\n        G.add_edges_from(_es)\n\n        # `components` is a list"),
+        ("class_level_caches_cleared_in_init", AE,
+         "    def __init__(self):\n        self._edge_combinations = {}\n        self._connected_subgraphs = {}",
+         "    _edge_combinations: dict = {}\n    _connected_subgraphs: dict = {}\n\n    def __init__(self):\n        self._edge_combinations.clear()\n        self._connected_subgraphs.clear()"),
+        ("node_lookup_by_position", AE, "            product *= G.nodes[n][\"u\"]", "            product *= G.nodes[list(G.nodes())[min(n, len(G) - 1)] if n < len(G) else n][\"u\"]"),
         ("phi_cached_interface", AE, "            interface_edges = 1.0\n            g = G.copy()",
          "            interface_edges = 1.0\n            g = G.copy()\n            p = self.__dict__.setdefault('_p0', p)"),
     ],
@@ -89,6 +93,7 @@ MUTANTS = {
         ("u_from_previous_sweep_only", MP, "        self._H_tau[(focal, motif_ID)] = self.resolve_equation(focal, label, prods)",
          "        self._H_new = getattr(self, '_H_new', {})\n        self._H_new[(focal, motif_ID)] = self.resolve_equation(focal, label, prods)\n"
          "        if focal == max(vertices_in_motif):\n            self._H_tau.update(self._H_new)"),
+        ("class_level_evaluator", MP, "        self._AE = AutomatedEquation()\n", "        self._AE = MessagePassing.__dict__.get('_shared') or AutomatedEquation()\n        MessagePassing._shared = self._AE\n"),
         ("mixin_id_is_topology", MX, "return int(label.split('-')[-1])", "return int(label.split('-')[0])"),
     ],
 }
